@@ -217,7 +217,7 @@ pub const BLOCK_LENS: &[usize] = &[15, 16, 17, 31, 32, 33, 63, 64, 65, 127, 128,
 /// short one, in both orders; sizes straddle 2^12 and 2^16
 pub fn lopsided_trees(rng: &mut Rng, quick: bool) -> Vec<Tree> {
     let mut v = Vec::new();
-    let sizes: &[usize] = if quick { &[4095, 4097, 9000, 70_000] } else { &[1000, 4095, 4096, 4097, 5000, 9000, 65_537, 70_000, 300_000] };
+    let sizes: &[usize] = if quick { &[4095, 4097, 9000, 70_000] } else { &[1000, 4095, 4096, 4097, 5000, 9000, 65_537, 70_000] };
     for &big in sizes {
         for kind in 0..3 {
             let long: Vec<f64> = match kind {
